@@ -382,6 +382,69 @@ func streams(c *check, maxLen int) {
 	}
 }
 
+// streamDefaults: the stream interceptor with no options, and with only one of the two limiters
+// supplied (the other direction then runs on the built-in default limiter): every operation reaches
+// the stream exactly once, returns the stream's own result, and a supplied limiter is consulted only
+// by its own direction.
+func streamDefaults(c *check) {
+	for mode := 0; mode < 3; mode++ { // 0 no options; 1 custom recv limiter only; 2 custom send limiter only
+		for kind := 0; kind < 2; kind++ {
+			for e := 0; e < 2; e++ {
+				log := &evlog{}
+				custom := &recLimiter{name: "custom", grant: true, log: log}
+				var opts []gl.StreamInterceptorOption
+				switch mode {
+				case 1:
+					opts = append(opts, gl.WithStreamRecvLimiter(custom))
+				case 2:
+					opts = append(opts, gl.WithStreamSendLimiter(custom))
+				}
+				inner := &ss{log: log}
+				if e == 1 {
+					inner.next = errCall
+				}
+				choices := []int{mode, kind, e}
+				ic := gl.StreamServerInterceptor(opts...)
+				err := ic(nil, inner, &golangGrpc.StreamServerInfo{FullMethod: "/svc/S"}, func(srv interface{}, stream golangGrpc.ServerStream) error {
+					var got error
+					name := "RecvMsg"
+					if kind == 1 {
+						name = "SendMsg"
+						got = stream.SendMsg("m")
+					} else {
+						got = stream.RecvMsg("m")
+					}
+					c.n++
+					c.states[fmt.Sprint(mode, kind, e, log.ev)] = true
+					what := fmt.Sprintf("stream %s with %s, stream error=%v", name, []string{"no options", "only a receive limiter", "only a send limiter"}[mode], e == 1)
+					if got != inner.next {
+						c.fail("stream-defaults/result-altered", choices, "%s: returned %v, the stream returned %v", what, got, inner.next)
+					}
+					mine := (mode == 1 && kind == 0) || (mode == 2 && kind == 1)
+					want := []string{"call"}
+					if mine {
+						want = []string{"custom.Acquire", "call", "custom.OnSuccess"}
+						if e == 1 {
+							want[2] = "custom.OnDropped"
+						}
+					}
+					if strings.Join(log.ev, " ") != strings.Join(want, " ") {
+						sig := "stream-defaults/events"
+						if !mine && len(log.ev) > 0 && strings.HasPrefix(log.ev[0], "custom.") {
+							sig = "stream-defaults/wrong-limiter"
+						}
+						c.fail(sig, choices, "%s: events %v, expected %v", what, log.ev, want)
+					}
+					return nil
+				})
+				if err != nil {
+					c.fail("stream/handler-result", choices, "interceptor returned %v for a handler that returned nil", err)
+				}
+			}
+		}
+	}
+}
+
 func main() {
 	prop := flag.String("prop", "C14", "")
 	tier := flag.String("tier", "quick", "")
@@ -434,6 +497,7 @@ func main() {
 		run("C14/unary-server", "limiter answer x call result x classifier result x options", func(c *check) { unary(c, true) })
 		run("C14/unary-client", "limiter answer x call result x classifier result x options", func(c *check) { unary(c, false) })
 		run("C14/stream", fmt.Sprintf("all sequences of <=%d RecvMsg/SendMsg x grant x error x classifier x options; distinct recv/send limiters", maxLen), func(c *check) { streams(c, maxLen) })
+		run("C14/stream-defaults", "no options / only one limiter supplied x RecvMsg/SendMsg x stream error", streamDefaults)
 	}
 	o.WallS = time.Since(start).Seconds()
 	if *replay != "" {
